@@ -252,12 +252,21 @@ class AlgebraProfile(StoreProfile):
             st["filtered"] = "/".join(h) + "?%s=%s" % (k, v)
             return st
         if rule == "literal":
+            if leaf and rng.random() < 0.25:
+                # the '*' at the extension of an existing file, everything before it literal: the typed searches of the
+                # sibling file types (several of them share one directory, hence one glob pattern) all run in one call
+                host = list(segs)
+                host[-1] = "*"
+                for jj in range(1, n - 1):
+                    if rng.random() < 0.2:
+                        host[jj] = "*"
+                run.probes["literal_rule_at_the_extension"] += 1
             stars = [j for j in range(n) if host[j] == "*"]
             if not stars:
                 j = rng.randrange(n)
                 host[j] = "*"
                 stars = [j]
-            j = rng.choice(stars)
+            j = rng.choice(stars) if host[-1] != "*" or rng.random() < 0.5 else n - 1
             vals = vocab.values(tn, t.keys[j]) or []
             v = segs[j] if rng.random() < 0.7 or not vals else rng.choice(vals)
             if "_" in segs[j].strip("_") and rng.random() < 0.5:
